@@ -139,8 +139,15 @@ fn build(case: &Value) -> Config {
     };
     let pmax = case["poolmax"].as_i64().unwrap();
     let pwait = case["pwait"].as_str().unwrap();
-    if pmax >= 0 || pwait != U {
+    let pcreate = case["pcreate"].as_str().unwrap_or(U);
+    let qmode = case["qmode"].as_str().unwrap_or(U);
+    if pmax >= 0 || pwait != U || pcreate != U || qmode != U {
         let mut p = PoolConfig::default();
+        match qmode {
+            "Lifo" => p.queue_mode = deadpool::managed::QueueMode::Lifo,
+            "Fifo" => p.queue_mode = deadpool::managed::QueueMode::Fifo,
+            _ => {}
+        }
         if pmax >= 0 {
             p.max_size = pmax as usize;
         }
@@ -150,7 +157,7 @@ fn build(case: &Value) -> Config {
                 "finite" => Some(Duration::from_secs(5)),
                 _ => None,
             },
-            create: None,
+            create: if pcreate == "finite" { Some(Duration::from_secs(7)) } else { None },
             recycle: None,
         };
         c.pool = Some(p);
@@ -251,6 +258,16 @@ fn one(case: &Value) -> Value {
         };
         if pool.timeouts().wait != want_wait {
             problems.push(format!("pool wait timeout: code {:?} spec {:?}", pool.timeouts().wait, want_wait));
+        }
+        let want_create = if case["pcreate"].as_str() == Some("finite") { Some(Duration::from_secs(7)) } else { None };
+        if pool.timeouts().create != want_create {
+            problems.push(format!("pool create timeout: code {:?} spec {:?}", pool.timeouts().create, want_create));
+        }
+        // the queue mode has no getter: the pool's Debug output shows its configuration
+        let dbg = format!("{:?}", pool);
+        let want_q = e["qmode"].as_str().unwrap_or("Fifo");
+        if !dbg.contains(&format!("queue_mode: {}", want_q)) {
+            problems.push(format!("pool queue_mode: spec {} but the pool says {}", want_q, if dbg.contains("queue_mode: Lifo") { "Lifo" } else if dbg.contains("queue_mode: Fifo") { "Fifo" } else { "nothing" }));
         }
     }
     json!({"case": case, "got": {"kind": kind, "cfg": got, "create": ckind}, "ok": problems.is_empty(), "problems": problems})
